@@ -188,3 +188,63 @@ Proof.
 Qed.
 
 End Value.
+
+(* ---- from the accumulated mean to the true time-weighted mean of log2(price) ---- *)
+Definition log2R (x : R) : R := ln x / ln 2.
+
+Fixpoint rsum (f : Z -> R) (a : Z) (n : nat) : R :=
+  match n with O => 0 | S k => f a + rsum f (a + 1) k end.
+
+Lemma IZR_zsum f a n : IZR (Spec.zsum f a n) = rsum (fun i => IZR (f i)) a n.
+Proof. revert a; induction n as [|n IH]; intros a; cbn [Spec.zsum rsum]; [reflexivity|]. rewrite plus_IZR, IH. reflexivity. Qed.
+
+Lemma rsum_close f g c : 0 <= c -> forall n a,
+  (forall i, (a <= i < a + Z.of_nat n)%Z -> Rabs (f i - g i) <= c) ->
+  Rabs (rsum f a n - rsum g a n) <= c * INR n.
+Proof.
+  intros Hc. induction n as [|n IH]; intros a H.
+  - cbn [rsum INR]. rewrite Rminus_0_r, Rabs_R0. lra.
+  - cbn [rsum]. rewrite S_INR.
+    replace (f a + rsum f (a + 1) n - (g a + rsum g (a + 1) n)) with ((f a - g a) + (rsum f (a + 1) n - rsum g (a + 1) n)) by ring.
+    eapply Rle_trans; [apply Rabs_triang|].
+    pose proof (H a ltac:(lia)). pose proof (IH (a + 1)%Z ltac:(intros i Hi; apply H; lia)). lra.
+Qed.
+
+Lemma ln2_pos : 0 < ln 2. Proof. rewrite <- ln_1. apply ln_increasing; lra. Qed.
+Lemma ln2_le1 : ln 2 <= 1.
+Proof.
+  assert (2 <= exp 1) by (pose proof (exp_ineq1_le 1); lra).
+  destruct (Rle_lt_dec (ln 2) 1) as [|Hgt]; [assumption|]. exfalso.
+  assert (exp 1 < exp (ln 2)) by (apply exp_increasing; assumption). rewrite exp_ln in * by lra. lra.
+Qed.
+
+(* exp y <= 1 + 2 y and exp (- y) >= 1 - y on [0, 1/2] *)
+Lemma exp_up y : 0 <= y <= 1 / 2 -> exp y <= 1 + 2 * y.
+Proof.
+  intros Hy. pose proof (exp_ineq1_le (- y)) as H. pose proof (exp_pos y) as Hp. pose proof (exp_pos (- y)) as Hn.
+  assert (exp y * exp (- y) = 1) as Hinv by (rewrite <- exp_plus; replace (y + - y) with 0 by ring; apply exp_0).
+  (* exp y = 1 / exp(-y) <= 1 / (1 - y) <= 1 + 2y *)
+  assert (exp y * (1 - y) <= 1) by nra.
+  nra.
+Qed.
+
+(* |2^a - 2^b| <= 2^b * 2 |a - b| for |a - b| <= 1/2 *)
+Lemma Rpower2_close a b : Rabs (a - b) <= 1 / 2 -> Rabs (Rpower 2 a - Rpower 2 b) <= Rpower 2 b * (2 * Rabs (a - b)).
+Proof.
+  intros H. unfold Rpower. pose proof ln2_pos as L0. pose proof ln2_le1 as L1.
+  set (B := exp (b * ln 2)). assert (0 < B) as HB by apply exp_pos.
+  replace (a * ln 2) with (b * ln 2 + (a - b) * ln 2) by ring. rewrite exp_plus. fold B.
+  set (y := (a - b) * ln 2).
+  assert (Rabs y <= Rabs (a - b)) as Hy.
+  { subst y. rewrite Rabs_mult, (Rabs_pos_eq (ln 2)) by lra. pose proof (Rabs_pos (a - b)). nra. }
+  replace (B * exp y - B) with (B * (exp y - 1)) by ring.
+  rewrite Rabs_mult, (Rabs_pos_eq B) by lra.
+  apply Rmult_le_compat_l; [lra|].
+  destruct (Rle_lt_dec 0 y) as [Hy0|Hy0].
+  - rewrite (Rabs_pos_eq y) in Hy by assumption.
+    pose proof (exp_up y ltac:(lra)). pose proof (exp_ineq1_le y).
+    rewrite Rabs_pos_eq by lra. lra.
+  - rewrite (Rabs_left y) in Hy by assumption.
+    pose proof (exp_ineq1_le y). assert (exp y < 1) by (rewrite <- exp_0; apply exp_increasing; assumption).
+    rewrite Rabs_left by lra. lra.
+Qed.
